@@ -242,6 +242,38 @@ def many_zero_columns(ctx: Ctx, spec):
                       f"other columns by {relerr(keep, x):.3e} (relative)", rp)
 
 
+def nearly_dependent_f64(ctx: Ctx):
+    """ConFIG on a DOUBLE-precision matrix whose rows are nearly dependent (smallest relative singular value ~ 1e-6..1e-5:
+    far above the double-precision noise, i.e. an unambiguous full rank), with tens to hundreds of all-zero columns
+    appended: the update of the real columns must not notice them (a rank tolerance derived from anything but the matrix's
+    own precision, or growing with the number of columns, does)"""
+    from torchjd.aggregation import ConFIG
+    rng = ctx.rng
+    m = 3
+    sig = [Fr(2), Fr(1), Fr(rng.choice([3, 6, 12]), 10 ** 6)]
+    J, _, _, _ = m_svd(rng, m, m, sigmas=sig)
+    Jt = to_tensor(J, torch.float64)
+    extra = rng.choice([40, 100, 200, 400])
+    pv = rng.choice([None, [1.0, 2.0, 3.0]])
+    A = ConFIG(pref_vector=None if pv is None else torch.tensor(pv, dtype=torch.float64))
+    st, x = attempt(A, Jt, 0)
+    Jz = torch.cat([Jt, torch.zeros(m, extra, dtype=torch.float64)], dim=1)
+    st2, y = attempt(A, Jz, 0)
+    ctx.case(("nearly-dependent-f64", str(J), extra, str(pv)), nontrivial=True,
+             sample={"aggregator": "ConFIG", "family": "nearly-dependent-f64", "zero_columns": extra})
+    ctx.count("float_family", "ConFIG:nearly-dependent-f64")
+    rp = {"aggregator": "ConFIG", "family": "nearly-dependent-f64", "J": [[str(v) for v in r] for r in J], "sigma": [str(v) for v in sig],
+          "zero_columns": extra, "pref": str(pv), "dtype": "torch.float64"}
+    if st != "ok" or st2 != "ok":
+        ctx.violation(f"ConFIG raised {x if st != 'ok' else y}", rp)
+        return
+    _FLOOR[0] = float(x.abs().max())
+    tol = 64 * 2.2e-16 * float(sig[0] / sig[-1]) ** 2
+    if relerr(y[:m], x) > tol or float(y[m:].abs().max()) > tol * _FLOOR[0]:
+        ctx.violation(f"ConFIG (float64, smallest relative singular value {float(sig[-1] / sig[0]):.1e}): appending {extra} all-zero "
+                      f"columns changes the update of the other columns by {relerr(y[:m], x):.3e} (relative; allowance {tol:.1e})", rp)
+
+
 def float_families(ctx: Ctx, spec, dtype):
     rng = ctx.rng
     g = torch.Generator().manual_seed(rng.randrange(2 ** 31))
@@ -274,6 +306,7 @@ def main(ctx: Ctx):
                 many_zero_columns(ctx, spec)
             if i % 2 == 0:
                 float_families(ctx, spec, torch.float32 if i % 4 == 0 else torch.float64)
+        nearly_dependent_f64(ctx)
     return ctx.finish(
         rule="15 aggregators x (rational-SVD matrices with unambiguous rank / integer matrices) x preference, weight "
              "and leak vectors: A(J) == weighting(J) @ J (ConFIG: least-squares residual on the row span); A(JQ) == A(J)Q "
